@@ -739,7 +739,18 @@ type UnaryArithmetic struct {
 }
 
 func (e UnaryArithmetic) String() string {
-	return e.Operator.String() + e.Operand.String()
+	return e.Operator.String() + unaryOperandString(e.Operand)
+}
+
+// unaryOperandString returns the text of the operand of a prefix operator. An
+// operand that begins with a prefix operator itself is set apart by a space:
+// "--1" would be read as a line comment and "!!x" as a single operator.
+func unaryOperandString(operand QueryExpression) string {
+	switch operand.(type) {
+	case UnaryArithmetic, UnaryLogic:
+		return " " + operand.String()
+	}
+	return operand.String()
 }
 
 type Logic struct {
@@ -765,7 +776,7 @@ func (e UnaryLogic) String() string {
 		s := []string{e.Operator.String(), e.Operand.String()}
 		return joinWithSpace(s)
 	}
-	return e.Operator.String() + e.Operand.String()
+	return e.Operator.String() + unaryOperandString(e.Operand)
 }
 
 type Concat struct {
